@@ -210,22 +210,22 @@ impl<'p> Interp<'p> {
 					Some(t) => self.resolve_result_inner(t),
 					None => return unsup(format!("{}::{} without receiver or hint", tyname, item)),
 				};
-				return self.call_static_args(&target, item, vec![], hint);
+				return self.call_static_args_tr(&target, item, vec![], hint, Some(tyname));
 			}
 			if item == "new" || !self.sig_has_receiver(tyname, item) {
 				let target = match hint {
 					Some(t) => self.resolve_result_inner(t),
 					None => return unsup(format!("{}::{} needs an expected type", tyname, item)),
 				};
-				return self.call_static_args(&target, item, args, hint);
+				return self.call_static_args_tr(&target, item, args, hint, Some(tyname));
 			}
 			let recv = args.remove(0);
 			return self.call_method_value(recv, item, args, hint);
 		}
 		// ordinary inherent/trait impl on a concrete type
-		if let Some(d) = self.pick_impl(tyname, item, None) {
+		if let Some(d) = self.pick_impl_ex(tyname, item, None, Some(argexprs.len()), None) {
 			// need arg values to choose among From<..> overloads
-			let overloaded = self.prog.impls.get(&(tyname.to_string(), item.to_string())).map_or(0, |v| v.len()) > 1;
+			let overloaded = self.prog.impls.get(&(tyname.to_string(), item.to_string())).map_or(0, |v| v.iter().filter(|d| d.sig.inputs.len() == argexprs.len()).count()) > 1;
 			if overloaded {
 				let args = self.eval_args(argexprs, None, false)?;
 				return self.call_static_args(tyname, item, args, hint);
@@ -308,11 +308,14 @@ impl<'p> Interp<'p> {
 	}
 
 	pub fn call_static_args(&mut self, tyname: &str, item: &str, args: Vec<V>, hint: Option<&syn::Type>) -> R<V> {
+		self.call_static_args_tr(tyname, item, args, hint, None)
+	}
+	pub fn call_static_args_tr(&mut self, tyname: &str, item: &str, args: Vec<V>, hint: Option<&syn::Type>, tr: Option<&str>) -> R<V> {
 		if let Some(stub) = self.stubs.get(&(tyname.to_string(), item.to_string())).cloned() {
 			let d = self.prog.free_fns.get(&stub).cloned().ok_or(Ctl::Unsupported(format!("stub fn {} missing", stub)))?;
 			return self.call_fn(&d, None, args, HashMap::new());
 		}
-		if let Some(d) = self.pick_impl(tyname, item, args.first()) {
+		if let Some(d) = self.pick_impl_ex(tyname, item, args.first(), Some(args.len()), tr) {
 			let args: Vec<V> = d
 				.sig
 				.inputs
@@ -336,16 +339,32 @@ impl<'p> Interp<'p> {
 
 	/// choose the impl of `item` for type `tyname`; among several (From<A>, From<B>) by the first argument
 	pub fn pick_impl(&self, tyname: &str, item: &str, arg0: Option<&V>) -> Option<Rc<FnDef>> {
-		let v = match self.prog.impls.get(&(tyname.to_string(), item.to_string())) {
+		self.pick_impl_ex(tyname, item, arg0, None, None)
+	}
+	pub fn pick_impl_ex(&self, tyname: &str, item: &str, arg0: Option<&V>, arity: Option<usize>, tr: Option<&str>) -> Option<Rc<FnDef>> {
+		let all = match self.prog.impls.get(&(tyname.to_string(), item.to_string())) {
 			Some(v) => v,
 			None => return self.find_method(tyname, item),
 		};
+		let mut v: Vec<Rc<FnDef>> = all.clone();
+		if let Some(t) = tr {
+			let f: Vec<Rc<FnDef>> = v.iter().filter(|d| d.trait_name.as_deref() == Some(t)).cloned().collect();
+			if !f.is_empty() {
+				v = f;
+			}
+		}
+		if let Some(n) = arity {
+			let f: Vec<Rc<FnDef>> = v.iter().filter(|d| d.sig.inputs.len() == n).cloned().collect();
+			if !f.is_empty() {
+				v = f;
+			}
+		}
 		if v.len() == 1 || arg0.is_none() {
 			return v.first().cloned();
 		}
 		let a = arg0.unwrap();
 		let mut generic: Option<Rc<FnDef>> = None;
-		for d in v {
+		for d in &v {
 			match d.trait_args.first() {
 				Some(t) => {
 					if d.generics.iter().any(|g| type_head(t).trim_start_matches('&') == g) {
